@@ -12,6 +12,11 @@ mod joystick;
 mod gamepad;
 mod fmt;
 mod bus;
+mod auth;
+mod authgen;
+#[allow(dead_code)]
+#[path = "/repo/glonax-server/src/config.rs"]
+mod server_config;
 mod c01;
 mod c02;
 mod c03;
@@ -29,6 +34,12 @@ mod c17;
 mod c18;
 
 use util::*;
+
+fn run_c06(out: &mut Out, tier: &str, rng: &mut Rng) {
+    drv::run_c06(out, tier, rng);
+    authgen::run_c06_auth(out, tier, rng);
+    out.rule.push_str("; authority level: raw can_frames with every DLC 0..8 injected into the real NetworkAuthority::recv on the emulated bus, followed by a cycle and commands whose frames must still appear");
+}
 
 fn main() {
     let args: Vec<String> = std::env::args().collect();
@@ -50,11 +61,13 @@ fn main() {
         "C04" => c04::run,
         "C05" => c05::run,
         "C14" => c14::run,
-        "C06" => drv::run_c06,
+        "C06" => run_c06,
         "C07" => c07::run,
         "C08" => drv::run_c08,
         "C09" => c09::run,
+        "C10" => authgen::run_c10,
         "C11" => drv::run_c11,
+        "C20" => authgen::run_c20,
         "C12" => drv::run_c12,
         "C13" => c13::run,
         "C15" => c15::run,
